@@ -567,7 +567,120 @@ def run_lse_laws(c):
     return out
 
 
-RUNNERS = {"lse-exact": run_lse_exact, "lse-laws": run_lse_laws, "grid": run_grid, "dgrid": run_dgrid, "funcrep": run_funcrep, "mapcoord": run_mapcoord, "gridcoord": run_gridcoord, "map": run_map, "call": run_call, "scs": run_scs, "scs-mdl": run_scs_mdl, "argmax": run_argmax, "segargmax": run_segargmax, "reduce": run_reduce}
+# ----------------------------------------------------------------------------- C12
+class _Stop(Exception):
+    pass
+
+
+def run_lifecycle(c):  # noqa: C901, PLR0912, PLR0915
+    """Build grids, Model, functions and make the first calls for a base template with a set of violated
+    documented rules; record the outcome of every stage (also on the error path)."""
+    import random
+
+    import jax.numpy as jnp
+
+    import lcm
+    from lcm import LinspaceGrid, Model
+    from lcm.entry_point import get_lcm_function
+
+    m = c["mdl"]
+    rules = set(c["rules"])
+    rng = random.Random(c.get("variant", 0))
+    trace = []
+
+    def stage(name, fn):
+        try:
+            r = fn()
+        except Exception as e:  # noqa: BLE001
+            trace.append({"stage": name, "ok": False, "cls": type(e).__name__, "msg": str(e)[:160]})
+            raise _Stop from e
+        trace.append({"stage": name, "ok": True, "cls": "", "msg": ""})
+        return r
+
+    sn, cn = MDL.state_names(m), MDL.choice_names(m)
+    cont_states = [v["name"] for v in m["vars"] if v["role"] == "state" and v["kind"] != "disc"]
+    disc_states = [v["name"] for v in m["vars"] if v["role"] == "state" and v["kind"] == "disc"]
+    disc_choices = [v["name"] for v in m["vars"] if v["role"] == "choice" and v["kind"] == "disc"]
+    try:
+        def mk_grids():
+            g = {v["name"]: MDL.build_grid(v) for v in m["vars"]}
+            if "R8" in rules:
+                k = rng.randrange(4)
+                name = rng.choice(list(g))
+                if k == 0:
+                    g[name] = LinspaceGrid(start=1, stop=0, n_points=3)
+                elif k == 1:
+                    g[name] = LinspaceGrid(start=0, stop=1, n_points=0)
+                elif k == 2:
+                    g[name] = lcm.LogspaceGrid(start=0, stop="1", n_points=3)
+                else:
+                    g[name] = lcm.DiscreteGrid(object)   # not a dataclass
+            return g
+        grids = stage("grid", mk_grids)
+
+        def mk_model():
+            funcs = MDL.build_functions(m)
+            states = {n: grids[n] for n in sn}
+            choices = {n: grids[n] for n in cn}
+            n_periods = m["T"]
+            ns = {"lcm": lcm, "jnp": jnp}
+            if "R1" in rules:
+                n_periods = rng.choice([0, -1])
+            if "R2" in rules:
+                del funcs["utility"]
+            if "R3" in rules:
+                del funcs["next_" + rng.choice(sn)]
+            if "R4" in rules:
+                choices[rng.choice(sn)] = grids[cn[0]] if cn else grids[sn[0]]
+            if "R6" in rules:
+                if rng.random() < 0.5 or not disc_states:
+                    w = cont_states[0]
+                    exec(f"@lcm.mark.stochastic\ndef next_{w}({w}):\n    pass\n", ns)  # noqa: S102
+                    funcs[f"next_{w}"] = ns[f"next_{w}"]
+                else:
+                    h, w = disc_states[0], cont_states[0]
+                    exec(f"@lcm.mark.stochastic\ndef next_{h}({h}, {w}):\n    pass\n", ns)  # noqa: S102
+                    funcs[f"next_{h}"] = ns[f"next_{h}"]
+            if "R7" in rules:
+                h, a = disc_states[0], disc_choices[0]
+                exec(f"def p_filter({h}, {a}, kpar):\n    return {a} <= {h} + kpar\n", ns)  # noqa: S102
+                funcs["p_filter"] = ns["p_filter"]
+            if "R5" in rules:
+                k = rng.randrange(5)
+                if k == 0:
+                    states[sn[0]] = [0.0, 1.0]
+                elif k == 1:
+                    funcs["utility" if "utility" in funcs else next(iter(funcs))] = 3.0
+                elif k == 2:
+                    funcs = list(funcs.values())
+                elif k == 3:
+                    choices = list(choices)
+                else:
+                    states[7] = states.pop(sn[0])
+            return Model(n_periods=n_periods, functions=funcs, states=states, choices=choices)
+        model = stage("model", mk_model)
+
+        def mk_functions():
+            f1, tmpl = get_lcm_function(model, targets="solve", debug_mode=False, jit=bool(c.get("jit", True)))
+            f2, _ = get_lcm_function(model, targets="solve_and_simulate", debug_mode=False, jit=bool(c.get("jit", True)))
+            return f1, f2, tmpl
+        f_solve, f_sim, tmpl = stage("functions", mk_functions)
+        params = MDL.params(m)
+        stage("solve", lambda: f_solve(params))
+        from .drive import _init_arrays
+        from fractions import Fraction as F
+        init = {k: [F(x[0], x[1]) for x in v] for k, v in c["init"].items()}
+        stage("simulate", lambda: f_sim(params, initial_states=_init_arrays(m, init), seed=c.get("seed", 0)))
+    except _Stop:
+        pass
+    out = {k: v for k, v in c.items() if k != "mdl"}
+    out["mdl_summary"] = {"T": m["T"], "vars": [[v["name"], v["role"], v["kind"], v["n"]] for v in m["vars"]],
+                          "funcs": [[f["name"], f["kind"], f["args"]] for f in m["funcs"]]}
+    out["trace"] = trace
+    return out
+
+
+RUNNERS = {"lifecycle": run_lifecycle, "lse-exact": run_lse_exact, "lse-laws": run_lse_laws, "grid": run_grid, "dgrid": run_dgrid, "funcrep": run_funcrep, "mapcoord": run_mapcoord, "gridcoord": run_gridcoord, "map": run_map, "call": run_call, "scs": run_scs, "scs-mdl": run_scs_mdl, "argmax": run_argmax, "segargmax": run_segargmax, "reduce": run_reduce}
 
 
 def run_unit(c):
